@@ -28,7 +28,7 @@ Inductive modk :=
 | MContent | MMemo | MComptime | MUn | MAnti | MSpawn | MPool | MDump
 | MOnSub (n : nat) | MBySub (n : nat) | MWithSub (n : nat) | MOffSub (n : nat) | MDipN (n : nat)
 | MReduceDepth (d : nat) | MReduceContent | MUndoRows | MUndoInventory | MEachSub | MFixMatchRanks
-| MUnBracket | MUnScan | MRepeatWithInverse | MRepeatCountConv | MBothImpl (reused n : nat) | MHandleSig
+| MUnBracket | MUnScan | MRepeatWithInverse | MRepeatCountConv | MBothImpl (reused n : nat) | MUnBothImpl (reused n : nat) | MHandleSig
 | MOther (id : N) (fixed : option sig).   (* any other modifier: signature from its table entry, if any *)
 
 Inductive node :=
